@@ -319,12 +319,8 @@ class CallMixin:
                 es = self.tenv.sort(ept)
                 r = self.fresh("setof", Set(ept), st)
                 e = smt.Var(smt.fresh_name("e"), es)
-                i = smt.Var(smt.fresh_name("i"), "Int")
-                mem = smt.Exists(
-                    [(i.args[0], "Int")],
-                    smt.And(smt.Le(smt.Int(0), i), smt.Lt(i, smt.SeqLen(x.term)), smt.Eq(smt.SeqNth(x.term, i), e)),
-                )
-                st.assume(smt.Forall([(e.args[0], es)], smt.Eq(smt.Select(r.term, e), mem)))
+                mem = ops.seq_mem(x.term, e)
+                st.assume(smt.Forall([(e.args[0], es)], smt.Eq(smt.Select(r.term, e), mem), patterns=((smt.Select(r.term, e),), (mem,))))
                 return r
             raise Unsupported(f"set() of {x!r}")
         if name == "int":
